@@ -30,7 +30,15 @@ pub const CHUNKED_STATUSES: [(&str, u16, &str); 8] = [
 
 pub fn chunked_body_flow_for(which: usize) -> Result<F<RecvBody>, String> {
     let (method, status, extra) = CHUNKED_STATUSES[which % CHUNKED_STATUSES.len()];
-    let mut f = super::c05::recv_flow(method);
+    // one flow in five was requested with HTTP/1.0: how the body of an HTTP/1.1 response is framed is the
+    // response's business alone
+    let mut f = if which % 5 == 3 && matches!(method, "GET" | "POST") {
+        let mut cfg = ReqCfg::new(method, "http://h.test/");
+        cfg.ver = Ver::V10;
+        fast_to_recv(&cfg)?
+    } else {
+        super::c05::recv_flow(method)
+    };
     // the coding is announced in several legal spellings
     // (the last one: the list spread over two field lines)
     let te = ["chunked", "Chunked", "gzip, chunked", "chunked,", "chunked", " chunked\t", "gzip\r\nTransfer-Encoding: chunked"][which / CHUNKED_STATUSES.len() % 7];
